@@ -18,3 +18,26 @@ package bfe_server
 //@   loop 1 invariant[removed_so_far] forall i int :: 0 <= i && i <= rangeindex ==> !has(outreq.Header, canonKey(bfe_basic.HopHeaders[i])) || len(outreq.Header[canonKey(bfe_basic.HopHeaders[i])]) == 0 || (bfe_basic.HopHeaders[i] == "Te" && len(outreq.Header[canonKey("Te")]) == 1 && outreq.Header[canonKey("Te")][0] == "trailers")
 //@   loop 1 invariant[the_clients_map_is_left_alone] req.Header == old(req.Header) && canonicalKeys(req.Header) && (!copiedHeaders ==> outreq.Header == req.Header)
 //@   loop 1 invariant[deletions_only_touch_the_copy] copiedHeaders ==> outreq.Header != nil && !allocated(outreq.Header)
+
+// ---- C29: the client address of untrusted peers is the socket address ----
+
+//@ func setClientAddr
+//@   props C29
+//@   nopanic
+//@   requires req != nil && req.Session != nil && req.HttpRequest != nil
+//@   modifies req.ClientAddr
+//@   ensures[untrusted_peer_gets_its_socket_address_whatever_the_headers] req.Session.isTrustSource != bfe_basic.SessionTrustSource ==> req.ClientAddr == req.RemoteAddr
+//@   ensures[trusted_peer_gets_a_header_address_or_none] req.Session.isTrustSource == bfe_basic.SessionTrustSource ==> req.ClientAddr == nil || !allocated(req.ClientAddr)
+
+//@ func getFirstSplitFromHeader
+//@   props C29
+//@   nopanic
+//@   requires req != nil && req.HttpRequest != nil
+//@   modifies nothing
+
+//@ func parseClientAddr
+//@   props C29
+//@   nopanic
+//@   requires req != nil
+//@   modifies req.ClientAddr
+//@   ensures[only_a_parsable_address_is_used] req.ClientAddr == old(req.ClientAddr) || !allocated(req.ClientAddr)
